@@ -281,6 +281,7 @@ class Analysis:
         self.facts = []          # affine forms known to be >= 0 (table relations, domain assumptions)
         self.loop_atoms = {}
         self.loop_atom_info = {}
+        self.induction_atoms = {}
         self.post_hooks = []     # fn(an, st, callee path, args, ret) -> ret : domain assumptions on call results
         from . import models
         self.models = models
@@ -907,6 +908,11 @@ class Analysis:
             b_ex = b.slo is not None and b.slo == b.shi
             if a_ex and b_ex and not (a.slo.is_const() and b.slo.is_const()):
                 st.add_fact(b.slo - a.slo - d)      # the relation itself, as a path fact
+                if len(a.slo.t) == 1 and a.slo.c == 0:
+                    (at, k), = a.slo.t
+                    info = self.loop_atom_info.get(at) if k == 1 else None
+                    if info is not None and at in self.induction_atoms and info.get("hi") is None and d == 1:
+                        info["hi"] = b.slo - 1   # while A < B: inside the body A <= B - 1
             na = a.with_(nhi=min(a.nhi, b.nhi - d),
                          shi=a.shi if a_ex else self._choose_hi(a.shi, (b.shi - d) if b.shi is not None else None, rng))
             nb = b.with_(nlo=max(b.nlo, a.nlo + d),
@@ -1725,6 +1731,11 @@ class Analysis:
         if thresholds is None:
             thresholds = self.collect_thresholds(fn)
             fn._thresholds = thresholds
+        inductions = getattr(fn, "_inductions", None)
+        if inductions is None:
+            inductions = self.find_inductions(fn)
+            fn._inductions = inductions
+        ind_atoms = {}      # (head, local) -> atom
         inst = {0: st}
         visits = {}
         work = {0}
@@ -1751,6 +1762,8 @@ class Analysis:
                         ret_val = self.join_val(ret_val, rv, self.rng_fn(ret_state))
                     continue
                 old = inst.get(succ)
+                if succ in inductions:
+                    self.induction_edge(fn, fid, succ, inductions[succ], s_out, old, ind_atoms, b)
                 if old is None:
                     inst[succ] = s_out
                     work.add(succ)
@@ -1778,6 +1791,118 @@ class Analysis:
             for k in [k for k in ret_state.vals if k[0] == fid and k[1] != 0]:
                 pass
         return ret_val, ret_state, fid
+
+    # -- counting while-loops ---------------------------------------------------------------------------------
+    def find_inductions(self, fn):
+        """{loop head: [(local, step)]} for `while i < B { ..; i += c }` loops: the local has exactly one assignment in the
+        loop, i = i + c (c > 0, possibly through the checked-add lowering), and the loop is left on !(i < B) with B not
+        assigned in the loop.  Such a local is given a loop atom like the item of a range loop."""
+        out = {}
+        cfg = fn.cfg
+        try:
+            lo = cfg.loops()
+        except Exception:
+            return out
+
+        def root_local(blk, upto, o):
+            """the user local an operand copies, following temporaries defined earlier in the same block"""
+            seen = 0
+            while isinstance(o, dict) and o.get("o") in ("copy", "move") and not o["proj"] and seen < 8:
+                seen += 1
+                l = o["l"]
+                d = None
+                for s_ in blk["stmts"][:upto]:
+                    if s_["s"] == "assign" and s_["lhs"]["l"] == l and not s_["lhs"]["proj"]:
+                        d = s_
+                if d is None or d["rv"]["r"] != "use":
+                    return l
+                o = d["rv"]["a"]
+            return None
+        for h, body in lo.items():
+            assigns = {}
+            for b in body:
+                blk = fn.blocks[b]
+                if blk["cleanup"]:
+                    continue
+                for i_, s_ in enumerate(blk["stmts"]):
+                    if s_["s"] == "assign" and not s_["lhs"]["proj"]:
+                        assigns.setdefault(s_["lhs"]["l"], []).append((b, i_, s_))
+                t = blk["term"]
+                if t["t"] == "call" and not t["dest"]["proj"]:
+                    assigns.setdefault(t["dest"]["l"], []).append((b, None, t))
+            # exit tests  d = Lt(i, B); switch d -> [false: exit]
+            tests = []
+            for b in body:
+                blk = fn.blocks[b]
+                t = blk["term"]
+                if t["t"] != "switch" or t["discr"].get("o") not in ("copy", "move") or t["discr"]["proj"]:
+                    continue
+                arms = dict((v, tg) for v, tg in t["arms"])
+                if 0 not in arms or arms[0] in body or t["otherwise"] not in body:
+                    continue
+                d = t["discr"]["l"]
+                for i_, s_ in enumerate(blk["stmts"]):
+                    if s_["s"] == "assign" and s_["lhs"]["l"] == d and not s_["lhs"]["proj"] and s_["rv"]["r"] == "binop" and s_["rv"]["op"] == "Lt":
+                        il = root_local(blk, i_, s_["rv"]["a"])
+                        bo = s_["rv"]["b"]
+                        bl = root_local(blk, i_, bo) if bo.get("o") in ("copy", "move") else "const"
+                        if il is not None and bl is not None:
+                            tests.append((il, bl))
+            for il, bl in tests:
+                if bl != "const" and bl in assigns and fn.locals[bl].get("user"):
+                    continue          # the bound changes in the loop
+                defs = assigns.get(il, [])
+                if len(defs) != 1 or defs[0][1] is None:
+                    continue
+                b, i_, s_ = defs[0]
+                blk = fn.blocks[b]
+                rv = s_["rv"]
+                step = None
+                if rv["r"] == "binop" and rv["op"] in ("Add", "AddUnchecked") and rv["b"].get("o") == "const" and root_local(blk, i_, rv["a"]) == il:
+                    step = rv["b"].get("v")
+                elif rv["r"] == "use" and rv["a"].get("o") in ("move", "copy") and [e.get("p") for e in rv["a"]["proj"]] == ["field"] \
+                        and rv["a"]["proj"][0].get("i") == 0:
+                    # i = move (t.0) with t = AddWithOverflow(i, c) defined in a predecessor block
+                    tl = rv["a"]["l"]
+                    for (b2, i2, s2) in assigns.get(tl, []):
+                        if i2 is not None and s2["rv"]["r"] == "binop" and s2["rv"]["op"] == "AddWithOverflow" and \
+                                s2["rv"]["b"].get("o") == "const" and root_local(fn.blocks[b2], i2, s2["rv"]["a"]) == il:
+                            step = s2["rv"]["b"].get("v")
+                if isinstance(step, int) and step > 0:
+                    out.setdefault(h, []).append((il, step))
+        return out
+
+    def induction_edge(self, fn, fid, head, inds, s_out, old, ind_atoms, pred):
+        """entry edge: the counter becomes a loop atom A >= init; back edge: an incoming A + step is A again."""
+        for (l, step) in inds:
+            v = s_out.vals.get((fid, l))
+            if type(v) is not IntV:
+                continue
+            key = (head, l)
+            if old is None or key not in ind_atoms:
+                if key in ind_atoms:
+                    continue
+                ex = v.exact() if v.slo is not None else None
+                if ex is None:
+                    continue
+                a = self.new_atom("w@%s:bb%d:_%d" % (fn.key.split("::")[-1], head, l), -(1 << 70), 1 << 70)
+                self.facts.append(Aff.atom(a) - ex)              # A >= init on every visit of the head (step > 0)
+                self.loop_atom_info[a] = {"lo": ex, "hi": None, "site": "while:bb%d" % head, "step": step}
+                self.induction_atoms[a] = step
+                ind_atoms[key] = a
+                hi = ty_range(v.bits, v.signed)[1]
+                s_out.arng[a] = (v.nlo, hi)
+                af = Aff.atom(a)
+                s_out.vals[(fid, l)] = IntV(v.nlo, hi, v.bits, v.signed, af, af)
+            else:
+                a = ind_atoms[key]
+                ex = v.exact() if v.slo is not None else None
+                if ex is not None and ex == Aff.atom(a) + step:
+                    ov = old.vals.get((fid, l))
+                    if type(ov) is IntV:
+                        s_out.vals[(fid, l)] = ov
+                        if a in old.arng:
+                            s_out.arng[a] = old.arng[a]
 
     def collect_thresholds(self, fn):
         ts = {0, 1}
